@@ -18,9 +18,9 @@ for pid in args:
     matched = set()
     runs = [("quick", "0"), ("quick", "1"), ("quick", "7")] + ([] if quick_only else [("thorough", "0")])
     for tier, seed in runs:
-        env = dict(os.environ, VERIF_SEED=seed, VERIF_TIER=tier)
+        env = dict(os.environ, VERIF_SEED=seed, VERIF_TIER=tier, VERIF_SCRATCH_OUT="1")  # evidence of these runs goes to .scratch/
         r = subprocess.run([os.path.join(V, "check"), pid, "--tier", tier], cwd=V, env=env, capture_output=True, text=True)
-        ev = json.load(open(os.path.join(V, "evidence", f"{pid}.json")))
+        ev = json.load(open(os.path.join(V, ".scratch", "evidence", f"{pid}.json")))
         cov = ev.get("coverage", ev)
         ids = cov.get("known_findings", [])
         matched |= set(ids)
@@ -37,6 +37,3 @@ for pid in args:
     stale_top = [e["id"] for e in top["known"] if e["property"] == pid and e["id"] not in matched]
     if stale_top:
         print(f"{pid}: stale entries in known_findings.json (move to 'fixed' by hand): {stale_top}")
-# restore the evidence of the default configuration
-for pid in args:
-    subprocess.run([os.path.join(V, "check"), pid], cwd=V, capture_output=True, text=True)
